@@ -210,36 +210,74 @@ theorem orCursorBox {a : Region} (ha : a.WF) (ob : Option Region) (hb : ∀ b, o
     have hb' := hb b rfl
     exact ⟨wf_or ha hb', fun p => by simp [dset_or ha hb']⟩
 
-theorem setEncodings_wf (scr : Screen) (c : Client) (cr cs : Bool) (h : WFc c) :
-    WFc (setEncodings scr c cr cs) := by
-  unfold setEncodings
+theorem setEncodings0_wf (scr : Screen) (c : Client) (cr cs : Bool) (h : WFc c) :
+    WFc (setEncodings0 scr c cr cs) := by
+  unfold setEncodings0
   cases cs
   · exact h
   · exact ⟨(orCursorBox h.1 _ (cursorBox_wf scr _ _)).1, h.2.1, h.2.2⟩
 
 /-- SetEncodings is a `Step.draw` that draws nothing (`r = ∅`, framebuffer unchanged) and may add
 the cursor box to modifiedRegion (`extra`) -/
-theorem setEncodings_step (Sc : PSet) (scr : Screen) (c : Client) (cr cs : Bool) (h : WFc c)
+theorem setEncodings0_step (Sc : PSet) (scr : Screen) (c : Client) (cr cs : Bool) (h : WFc c)
     (fb pic : Pix → V) :
-    Step Sc (absS c fb pic) (absS (setEncodings scr c cr cs) fb pic) := by
-  have e : absS (setEncodings scr c cr cs) fb pic =
+    Step Sc (absS c fb pic) (absS (setEncodings0 scr c cr cs) fb pic) := by
+  have e : absS (setEncodings0 scr c cr cs) fb pic =
       { absS c fb pic with
           fb := fb,
           M := fun p => (absS c fb pic).M p ∨ (fun _ => False) p ∨
             (fun p => cs = true ∧ ∃ b, cursorBox scr c.cursorX c.cursorY = some b ∧ dset b p) p } := by
     apply SState_ext <;> try same_field
     · intro p
-      unfold setEncodings
+      unfold setEncodings0
       cases cs
       · simp [absS]
       · have := (orCursorBox h.1 (cursorBox scr c.cursorX c.cursorY) (cursorBox_wf scr _ _)).2 p
         simp only [absS, if_true, false_or, true_and]
         exact this
-    · intro p; unfold setEncodings; cases cs <;> rfl
-    · intro p; unfold setEncodings; cases cs <;> rfl
-    · unfold setEncodings; cases cs <;> rfl
+    · intro p; unfold setEncodings0; cases cs <;> rfl
+    · intro p; unfold setEncodings0; cases cs <;> rfl
+    · unfold setEncodings0; cases cs <;> rfl
   rw [e]
   exact Step.draw _ _ _ _ (fun _ _ _ => rfl)
+
+theorem dropCopy_wf (c : Client) (h : WFc c) : WFc (dropCopy c) := by
+  unfold dropCopy
+  split
+  · exact ⟨wf_or h.1 h.2.1, wf_empty, h.2.2⟩
+  · exact h
+
+/-- the tail of the SetEncodings handler is `Step.dropCopy` (or nothing) -/
+theorem dropCopy_reach (Sc : PSet) (c : Client) (h : WFc c) (fb pic : Pix → V) :
+    Reach Sc (absS c fb pic) (absS (dropCopy c) fb pic) := by
+  unfold dropCopy
+  split
+  · have e : absS { c with M := c.M.or c.C, C := Region.empty, dx := 0, dy := 0 } fb pic =
+        { absS c fb pic with
+            M := fun p => (absS c fb pic).M p ∨ (absS c fb pic).C p ∨ (fun _ => False) p,
+            C := fun _ => False, d := (0, 0) } := by
+      apply SState_ext <;> try same_field
+      · intro p
+        simp only [absS, or_false]
+        exact dset_or h.1 h.2.1 p
+      · intro p
+        simp only [absS]
+        exact iff_of_false (dset_empty p) (fun hf => hf)
+    rw [e]
+    exact Reach.single (Step.dropCopy _ _)
+  · exact Reach.refl _
+
+theorem setEncodings_wf (scr : Screen) (c : Client) (cr cs : Bool) (h : WFc c) :
+    WFc (setEncodings scr c cr cs) :=
+  dropCopy_wf _ (setEncodings0_wf scr c cr cs h)
+
+/-- SetEncodings: a `Step.draw` that draws nothing and may add the cursor box, followed — for a
+client that no longer accepts CopyRect — by `Step.dropCopy` -/
+theorem setEncodings_reach (Sc : PSet) (scr : Screen) (c : Client) (cr cs : Bool) (h : WFc c)
+    (fb pic : Pix → V) :
+    Reach Sc (absS c fb pic) (absS (setEncodings scr c cr cs) fb pic) :=
+  Reach.trans (Reach.single (setEncodings0_step Sc scr c cr cs h fb pic))
+    (dropCopy_reach Sc _ (setEncodings0_wf scr c cr cs h) fb pic)
 
 /-! ## 3. rfbScheduleCopyRegion (with the framebuffer copy of rfbDoCopyRegion) -/
 
@@ -981,7 +1019,7 @@ theorem MStep_sound (scr : Screen) (s t : MState V) (hw : WFc s.c) (h : MStep sc
   | mark c fb pic r fb' hr hfb =>
     exact ⟨markRegion_wf c r hw hr, Reach.single (markRegion_step (S scr) c r hw hr fb fb' pic hfb)⟩
   | setEncodings c fb pic cr cs =>
-    exact ⟨setEncodings_wf scr c cr cs hw, Reach.single (setEncodings_step (S scr) scr c cr cs hw fb pic)⟩
+    exact ⟨setEncodings_wf scr c cr cs hw, setEncodings_reach (S scr) scr c cr cs hw fb pic⟩
   | copy c fb pic D dx dy hD hsrc =>
     exact ⟨scheduleCopy_wf scr c D dx dy hw hD,
       Reach.single (scheduleCopy_step scr c D dx dy hw hD hsrc fb pic)⟩
